@@ -8,7 +8,42 @@ import (
 	"github.com/glebziz/fs_db/internal/verifh/ev"
 )
 
+// genC02Chain: long version chains of one key under snapshot transactions of different ages (the
+// per-key version list is searched by a hand-written binary search; lists of 20-60 versions with
+// snapshot points anywhere inside them are not reached by the general generator).
+func genC02Chain(t *rapid.T) Case {
+	c := Case{Prof: "c02", Roots: 1, MaxDir: 100, Keys: []string{"a", "b"}}
+	n := rapid.IntRange(18, 60).Draw(t, "chain")
+	nsnap := rapid.IntRange(1, 3).Draw(t, "snapshots")
+	at := map[int]bool{}
+	for i := 0; i < nsnap; i++ {
+		at[rapid.IntRange(0, n-1).Draw(t, "snapAt")] = true
+	}
+	for i := 0; i < n; i++ {
+		if at[i] {
+			c.Ops = append(c.Ops, Op{K: "begin", Lvl: rapid.SampledFrom([]int{2, 3}).Draw(t, "lvl")})
+		}
+		k := "set"
+		if rapid.IntRange(0, 9).Draw(t, "del") == 0 {
+			k = "del"
+		}
+		c.Ops = append(c.Ops, Op{K: k, Key: 0, Len: rapid.IntRange(0, 5).Draw(t, "len")})
+		switch rapid.IntRange(0, 11).Draw(t, "extra") {
+		case 0:
+			c.Ops = append(c.Ops, Op{K: "gc"})
+		case 1:
+			c.Ops = append(c.Ops, Op{K: "set", Key: 1, Len: 1})
+		case 2:
+			c.Ops = append(c.Ops, Op{K: "begin", Lvl: 1}, Op{K: "set", Last: true, Key: 0, Len: 2}, Op{K: "commit", Last: true})
+		}
+	}
+	return c
+}
+
 func genC02(t *rapid.T) Case {
+	if rapid.IntRange(0, 4).Draw(t, "chainProfile") == 0 {
+		return genC02Chain(t)
+	}
 	c := Case{Prof: "c02", Roots: 1, MaxDir: 100}
 	c.Keys = GenKeys(t, 3, 5, false)
 	c.Ops = GenTxOps(t, TxGenOpts{MinOps: 5, MaxOps: 60, Weights: map[string]int{
